@@ -17,10 +17,11 @@ RelaySeqs == UNION {[1..n -> RelayBeh] : n \in 0..MaxRelays}
 
 PNext == /\ sc.kind = "none"
          /\ \E d \in Times, rs \in RelaySeqs, tcp \in {"off", "fail", "ok", "late"}, fa \in {Never, CHOOSE g \in Grid : TRUE},
-               fn \in {Never, CHOOSE g \in Grid : TRUE}, dup \in BOOLEAN, s0 \in Scores, se \in BOOLEAN :
+               fn \in {Never, CHOOSE g \in Grid : TRUE}, dup \in BOOLEAN, s0 \in Scores, se \in BOOLEAN, dn \in BOOLEAN :
               LET s == [direct |-> d, relays |-> rs, tcp |-> tcp, foreignAck |-> fa, foreignNack |-> fn, dupAck |-> dup,
-                        score0 |-> s0, sendErr |-> se]
+                        score0 |-> s0, sendErr |-> se, dupNack |-> dn]
               IN /\ (dup => d # Never)
+                 /\ (dn => \E i \in DOMAIN rs : rs[i].nack)       \* every nack arrives twice (duplicated datagrams)
                  /\ (se => (d = Never /\ rs = <<>> /\ tcp = "off" /\ fa = Never /\ fn = Never))
                  /\ \A i \in DOMAIN rs : /\ (rs[i].nack <=> (rs[i].cap /\ (rs[i].ackAt = Never \/ rs[i].ackAt > 2 * PT)))
                                           /\ (rs[i].ackAt = Never \/ rs[i].ackAt > PT)
@@ -46,7 +47,7 @@ C19_Answered == sc.kind = "probe" /\ ~sc.s.sendErr =>
                           \/ (Escalated(sc.s) /\ \E i \in DOMAIN sc.s.relays : InTime(sc.s.relays[i].ackAt))
                           \/ (Escalated(sc.s) /\ sc.s.tcp = "ok")))
 C19_Foreign == sc.kind = "probe" =>
-   Outcome([sc.s EXCEPT !.foreignAck = Never, !.foreignNack = Never, !.dupAck = FALSE]) = sc.out
+   Outcome([sc.s EXCEPT !.foreignAck = Never, !.foreignNack = Never, !.dupAck = FALSE, !.dupNack = FALSE]) = sc.out
 C19_Score == sc.kind = "probe" => (sc.out.score >= 0 /\ sc.out.score <= AwMax - 1)
 C19_ScoreCause == sc.kind = "probe" =>
    /\ (sc.out.score > sc.s.score0 => ~sc.out.answered)
